@@ -7,7 +7,11 @@ RULE = ("harness c06: (a) GLWE / LWE secret-key encryption under controlled chan
         "replayed errors; mask stream and errors of the WHOLE object are given, the model derives each entry's share) and error_is_full checked by "
         "the oracle with the exact phase; masks of all cells of all entries pairwise distinct; compressed composite objects: stored seeds predicted from "
         "the root seed through a seed->stream table (one- and two-level derivation) and pairwise distinct, (c) statistics over >= 2^14 coefficients per layout "
-        "(two-sided variance band, chi-square on mask digits) as support")
+        "(two-sided variance band, chi-square on mask digits) as support, (d) scheme-layer entry points that take both sources: CKKS ckks_encrypt_sk, "
+        "binary-FHE FheUint::encrypt_sk (mask predicted from the MASK seed's stream; flags under a changed plaintext / error seed / mask seed), and "
+        "generation of the composite binary-FHE keys (CircuitBootstrappingKey, BDDKey with and without GLWE bridge): the mask of every cell of every "
+        "sub-key predicted from its share of the one mask stream in encryption order (bridge, GLWE->LWE key, automorphism keys by Galois element, "
+        "blind-rotation key, GGLWE->GGSW key), masks pairwise distinct, same flags")
 ASSUMPTIONS = ["release-mode (wrapping) integer semantics", "DFT-domain products exact inside the backend's magnitude domain (C07)",
                "statistics: the acceptance bands treat the rounded samples as Gaussian with variance in [V(1-2^-16), V(1+2^-16)+1/6] "
                "(sigma >= 3.2, bound = 6 sigma); they are support for the tie, not proof"]
